@@ -157,6 +157,19 @@ def multi_letters(w):
     if len(jobs) > 1:
         out.append(["multi", [["set", jobs[0], "ram_needed", ["q", 100.0, "megabyte"]],
                               ["set", jobs[1], "compute_needed", ["q", 0.2, "cpu_core"]]]])
+    # two quantities in one update (their update chains interleave when they share descendants)
+    for a, b in zip(ups, ups[1:]):
+        va, vb = (w["objects"][x]["attrs"]["hourly_usage_journey_starts"] for x in (a, b))
+        out.append(["multi", [["set", a, "hourly_usage_journey_starts", ["h", [x * 2 for x in va[1]], va[2], va[3]]],
+                              ["set", b, "hourly_usage_journey_starts", ["h", [x * 2 for x in vb[1]], vb[2], vb[3]]]]])
+    for a, b in zip(jobs, jobs[1:]):
+        out.append(["multi", [["set", a, "data_transferred", ["q", 300.0, "kilobyte"]],
+                              ["set", b, "data_transferred", ["q", 400.0, "kilobyte"]]]])
+        out.append(["multi", [["set", a, "data_stored", ["q", 150.0, "kilobyte"]],
+                              ["set", b, "request_duration", ["q", 61.0, "minute"]]]])
+    if steps and jobs:
+        out.append(["multi", [["set", steps[0], "user_time_spent", ["q", 61.0, "minute"]],
+                              ["set", jobs[-1], "data_transferred", ["q", 300.0, "kilobyte"]]]])
     if len(ups) > 1:
         cs = [n for n in W.creation_order(w) if w["objects"][n]["cls"] == "Country"]
         nws = [n for n in W.creation_order(w) if w["objects"][n]["cls"] == "Network"]
@@ -265,7 +278,8 @@ CAMPAIGNS = {
          "modes": {1: "full"}},
         {"world": "W2", "schedules": ("rev", 0), "depth": 1, "modes": {1: "full"}},
         {"world": "W3", "schedules": ("rev", 0), "depth": 1, "modes": {1: "full"}},
-        {"world": "W3", "schedules": ("default", 0), "depth": 2, "modes": {1: "core", 2: "core"}, "max": 1200},
+        {"world": "W3", "schedules": ("default", 0), "depth": 2, "modes": {1: "core", 2: "core"}, "max": 900},
+        {"world": "W2", "schedules": ("default", 0), "depth": 2, "modes": {1: "core", 2: "core"}, "max": 900},
     ],
     "thorough": [
         {"world": "W1", "schedules": ("dev", 2), "depth": 1, "modes": {1: "full"}},
